@@ -49,6 +49,10 @@ def gen_unit(rng):
     if rng.random() < 0.2:
         args += ["--only-objects-and-arrays"]
         pat.append("only_oa")
+    if rng.random() < 0.3:
+        # how malformed input is reported has nothing to do with how much input is read
+        args += ["--on-error", rng.choice(("stderr", "stdout", "ignore", "panic"))]
+        pat.append("on_error")
     if "unique" in pat and "split" in pat:
         # split elements of the template repeat (1,2 / {"n":1}); make every tail row new by splitting the record itself
         i = args.index("--split-by")
